@@ -24,7 +24,8 @@ CONSTANTS IfBase, IfAdd, IfCap,   \* interface ids: first id, reserved built-in 
           GenBase, GenCap,        \* generic traits
           Chunk,                  \* entries per chunk of the two chunk lists
           PtrSize,                \* sizeof(void *)
-          Fixed,                  \* built-in table id -> size (core, scalar, vector, managed)
+          FixedSize(_),           \* built-in table id -> sizeof (core, scalar, vector, managed), 0 = none
+          FixedManaged(_),        \* ... -> 1 when the built-in type has init/fini operations
           Optional,               \* ids the statement leaves open (may or may not resolve)
           Names, Sizes, Probe     \* explored names / sizes / looked-up ids
 
@@ -64,10 +65,11 @@ ById1(id) ==
   IF id \in DOMAIN reg
   THEN [present |-> 1, size |-> reg[id].size, managed |-> reg[id].managed,
         name |-> reg[id].name, ntype |-> IF reg[id].kind \in {"iface", "meta"} THEN id ELSE 0]
-  ELSE IF id \in DOMAIN Fixed
-  THEN [present |-> 1, size |-> Fixed[id].size, managed |-> Fixed[id].managed, name |-> "", ntype |-> 0]
+  ELSE IF FixedSize(id) # 0
+  THEN [present |-> 1, size |-> FixedSize(id), managed |-> FixedManaged(id), name |-> "", ntype |-> 0]
   ELSE [present |-> 0, size |-> 0, managed |-> 0, name |-> "", ntype |-> 0]
-Open(id) == id \in Optional \/ (id \notin Registrable /\ id \notin DOMAIN Fixed)
+InRegistrable(id) == id \in IfRange \/ id \in DynRange \/ id \in MetaRange \/ id \in GenRange
+Open(id) == id \in Optional \/ (~InRegistrable(id) /\ FixedSize(id) = 0)
 
 \* lookup by name: a registered name wins, then the short names
 Full1(n) == IF IdOf(reg, n) # <<>> THEN IdOf(reg, n)
@@ -143,8 +145,8 @@ ById2(id) ==
   THEN LET e == Walk(genC, id - GenBase) IN
        IF e = <<>> THEN absent
        ELSE [present |-> 1, size |-> e[1].size, managed |-> e[1].managed, name |-> "", ntype |-> 0]
-  ELSE IF id \in DOMAIN Fixed
-  THEN [present |-> 1, size |-> Fixed[id].size, managed |-> Fixed[id].managed, name |-> "", ntype |-> 0]
+  ELSE IF FixedSize(id) # 0
+  THEN [present |-> 1, size |-> FixedSize(id), managed |-> FixedManaged(id), name |-> "", ntype |-> 0]
   ELSE absent
 
 \* refinement mapping tables -> reg
